@@ -389,7 +389,27 @@ func ruleT6(c *Ctx) *RuleResult {
 				}
 			}
 		})
-		// (a) raises the flag
+		// (a) raises the flag — in the writer, or in a helper of the segmenter that it calls (compare-and-store helper)
+		if len(setTrue) == 0 {
+			allInstrs(fn, func(in ssa.Instruction) {
+				call, ok := in.(*ssa.Call)
+				if !ok {
+					return
+				}
+				g := call.Call.StaticCallee()
+				if g == nil || g == fn || !InRootPkg(g) || g.Blocks == nil {
+					return
+				}
+				allInstrs(g, func(x ssa.Instruction) {
+					if st, ok := x.(*ssa.Store); ok {
+						f, _ := fieldOfAddr(st.Addr)
+						if b, isB := constBool(st.Val); f == pending && isB && b {
+							setTrue = append(setTrue, st)
+						}
+					}
+				})
+			})
+		}
 		if len(setTrue) > 0 {
 			r.ok(fnn+"|raises-pending", c.Pos(setTrue[0].Pos()), fnn, "a parameter change raises the pending flag", fmt.Sprintf("%d store(s)", len(setTrue)))
 		} else {
